@@ -139,7 +139,6 @@ def case_modes(ctx, N, nmodes):
     cs = symarr("c", (nmodes,))
     with npx.symbolic(zm, pupil):
         Zs = numpy.asarray(zm.zernikeArray(nmodes, N), dtype=object)
-        ph = numpy.asarray(zm.phaseFromZernikes(cs, N), dtype=object)
         lst = [nmodes, 1, 3] if nmodes >= 3 else [1]
         Zl = numpy.asarray(zm.zernikeArray(lst, N), dtype=object)
         Zp = numpy.asarray(zm.zernikeArray(nmodes, N, norm="p2v"), dtype=object)
@@ -149,7 +148,29 @@ def case_modes(ctx, N, nmodes):
     want = numpy.zeros((N, N), dtype=object)
     for k in range(nmodes):
         want = want + Zs[k] * cs[k]
-    ctx.prove("phaseFromZernikes(c) = sum_k c_k Z_k for symbolic coefficients", [], all_eq(ph, want), replay=rp)
+
+    # the coefficient vector is symbolic: any decision the code takes on coefficient VALUES (e.g. trimming zeros) forks
+    def go():
+        with npx.symbolic(zm, pupil):
+            return numpy.asarray(zm.phaseFromZernikes(cs, N), dtype=object)
+    paths, ex = core.run_paths(go, [], max_paths=200)
+    ctx.explored(ex, len(paths))
+    for pi, pth in enumerate(paths):
+        if pth.exc is not None:
+            ctx.prove("path%d: phaseFromZernikes raises %s" % (pi, type(pth.exc).__name__), pth.pc, z3.BoolVal(False), replay=rp, axioms=False)
+            continue
+        ctx.prove("path%d: phaseFromZernikes(c) = sum_k c_k Z_k for symbolic coefficients" % pi, pth.pc, all_eq(pth.out, want), replay=rp)
+    # rotated modes: list form = slices of the count form for a non-zero rotation too
+    for rot in (0.3,):
+        with npx.symbolic(zm, pupil):
+            Zrc = numpy.asarray(zm.zernikeArray(nmodes, N, rot=rot), dtype=object)
+            Zrl = numpy.asarray(zm.zernikeArray(lst, N, rot=rot), dtype=object)
+            Zr1 = [numpy.asarray(zm.zernike_noll(j, N, rot=rot), dtype=object) for j in lst]
+        ctx.prove("rot=%s: zernikeArray(list) = slices of zernikeArray(count) = zernike_noll(j)" % rot, [],
+                  z3.And(all_eq(Zrl, numpy.array([Zrc[j - 1] for j in lst], dtype=object)), all_eq(Zrl, numpy.array(Zr1, dtype=object))),
+                  replay=lambda m, rot=rot: replay_rot(N, nmodes, lst, rot))
+        if nmodes >= 3:
+            ctx.prove("rot=%s: rotation changes the m != 0 modes (guard)" % rot, [], all_eq(Zrc[1], Zs[1]), expect="sat", kind="sensitivity", axioms=False)
     ctx.prove("zernikeArray(list) = the matching slices of zernikeArray(count)", [], all_eq(Zl, numpy.array([Zs[j - 1] for j in lst], dtype=object)), replay=rp)
     # vanish outside the inscribed pupil
     outside = []
@@ -183,6 +204,15 @@ def case_modes(ctx, N, nmodes):
         g.append(z3.BoolVal(abs(ms - 1) <= tol))
     ctx.prove("rms normalisation: mean square over the pupil = 1", [], conj(g), replay=rp, axioms=False)
     ctx.validate("zernikeArray", evaluate(Zs, {}), lambda: zm.zernikeArray(nmodes, N), tol=1e-9)
+
+
+def replay_rot(N, nmodes, lst, rot):
+    zm, _ = _zm()
+    Zc = zm.zernikeArray(nmodes, N, rot=rot)
+    Zl = zm.zernikeArray(list(lst), N, rot=rot)
+    Z1 = numpy.array([zm.zernike_noll(j, N, rot=rot) for j in lst])
+    bad = not numpy.allclose(Zl, Zc[[j - 1 for j in lst]], atol=1e-12) or not numpy.allclose(Zl, Z1, atol=1e-12)
+    return bool(bad), dict(what="rot=%s: zernikeArray(list) differs from the slices of zernikeArray(count) / zernike_noll" % rot, N=N, modes=nmodes)
 
 
 def replay_modes(N, nmodes, coeffs):
